@@ -20,7 +20,9 @@ LEVEL = "model_checking"
 CONNECTIVES = {"to", "of", "on", "off", "as", "in", "into", "at", "is", "what"}
 # (month names from both ends of the year and in both languages: a month named in the comment must not disturb the months of the line)
 COMMENTS = ["note", "5 + 3", "to usd", "december 5", "5 december 2020", "10 km", "%", "zorp = 3", "0x1F * 2", "#", "11:30 EST", "today",
-            "may change", "was 3 January", "FEB report", "ocak raporu", "1 oca"]
+            "may change", "was 3 January", "FEB report", "ocak raporu", "1 oca",
+            # a comment runs to the end of the line, whatever it contains - another `#` too
+            "paid in march # see invoice", "1 march, #2 april", "# # december"]
 WORD = re.compile(r"[^\W\d_]+", re.UNICODE)
 
 
